@@ -361,10 +361,12 @@ Definition ext17_ds (ds_item : val) (tr : list item) (f : string) (args : list v
   else if is f "$fstring" then Ok msg st
   else Stuck ("ext17_ds: " ++ f).
 
+(* id2token: the dict's items in the order of the model's association list (the worker only asks `is not None`
+   and `token not in id2token`, i.e. looks at the keys) *)
 Definition enc_i2t (i2t : option (list (Z * tk))) : val :=
   match i2t with
   | None => VNone
-  | Some l => VDict (fold_left (fun d kv => dict_set d (VInt (fst kv)) (enc_tk (snd kv))) l [])
+  | Some l => VDict (map (fun kv => (VInt (fst kv), enc_tk (snd kv))) l)
   end.
 
 Definition enc_fs (fs : option Q) : val := match fs with None => VNone | Some q => VQ q end.
